@@ -44,7 +44,7 @@ VK = ["r", "c", "z", "q", "i", "cr", "zc"]
 
 
 def budget(tier):
-    return {"examples": 8000 if tier == "quick" else 120000, "shards": 16, "shrink": 400 if tier == "quick" else 1500}
+    return {"examples": 8000 if tier == "quick" else 120000, "shards": 16, "shrink": 200 if tier == "quick" else 600}
 
 
 # ---------------------------------------------------------------------------------------------------------------------
